@@ -16,10 +16,6 @@ for n in range(0, 4):
     hs.append(H(P + "c15_sanitize_%d" % n, tier="thorough" if big else "quick", timeout=2400 if big else 600, mem=24 if big else 10, covers=2,
                 desc="name_partial_or_sanitize(x) never panics; its result passes name_partial and git's rules",
                 inputs="all byte strings of length %d" % n, bound="unwind 9; length concrete"))
-for a, b in [(1, 0), (0, 1)]:
-    hs.append(H(P + "c15_sanitize_lock_%d_%d" % (a, b), tier="thorough", timeout=2400, mem=24, covers=1,
-                desc="sanitising <a>.lock<b> yields a valid name", inputs="a: %d bytes, b: %d bytes, all values" % (a, b), bound="unwind 14"))
-
 SPEC = {
     "id": "C15",
     "crate": "h-core",
